@@ -9,6 +9,7 @@ package main
 
 import (
 	"fmt"
+	"go/types"
 	"math/big"
 	"regexp"
 	"sort"
@@ -154,6 +155,31 @@ func collectStores(p *Prog, key string, destOK func(root string) bool, keep func
 			d += "[" + idxSig(e.Idx) + "]"
 		}
 		sig := valueSig(e.Val, keep)
+		if sigGuards && len(e.Idx) > 0 {
+			// the range each index runs over (the count field written in the loop header, or the ranged collection)
+			var bs []string
+			for _, ix := range e.Idx {
+				for _, L := range e.Loops {
+					if L.Var != nil && ix.Equal(PAtom(L.Var)) {
+						switch {
+						case L.Range && L.RangeX != nil:
+							bs = append(bs, "range "+fieldOf(x.Info, L.RangeX))
+						case headerBoundField(x, L) != "":
+							bs = append(bs, "< "+headerBoundField(x, L))
+						default:
+							if _, hi, unit, why := loopBounds(x, L); why == "" && unit {
+								if c, ok := hi.ConstInt(); ok {
+									bs = append(bs, fmt.Sprintf("<= %d", c))
+								}
+							}
+						}
+					}
+				}
+			}
+			if len(bs) > 0 {
+				sig += "  for " + strings.Join(bs, ", ")
+			}
+		}
 		if sigGuards {
 			if gs := stateGuardSig(x, e); gs != "" {
 				sig += "  if " + gs
@@ -256,6 +282,7 @@ func checkC13(p *Prog, r *Report) {
 	c13Converter(p, r)
 	c13Weather(p, r)
 	c13Rotation(p, r)
+	c13StaleItem(p, r)
 }
 
 func short(k string) string { return strings.TrimPrefix(k, "hermes.") }
@@ -594,4 +621,109 @@ func cropResets(p *Prog, key string) map[string]cropReset {
 		out[k] = cropReset{dest: e.Root, rng: strings.Join(rg, ","), guards: strings.Join(gs, " ; "), val: e.Val.String(), pos: p.Pos(e.Pos)}
 	}
 	return out
+}
+
+// c13StaleItem: in the record-by-record readers a local that receives a value
+// parsed from the current record only under a condition, is never
+// unconditionally (re)set in the loop, and whose loop-entry value is read in
+// the loop, carries data of an earlier record into the current one (e.g. a
+// blank optional column silently inherits the previous horizon's value).
+func c13StaleItem(p *Prog, r *Report) {
+	r.Rule("C13.stale-item", "no value parsed from one record leaks into the next: in the record loops of the sibling readers every local that is conditionally assigned from the current record's tokens is re-initialised in each iteration before it is read", 4)
+	// only readers whose records are independent of each other (soil horizons, crop stages); the weather and
+	// measurement readers carry values forward by design (previous day number, last CO2 value, first record's data)
+	readers := []string{"hermes.LoadSoil", "hermes.LoadSoilCSV", "hermes.ReadCropParamClassic", "hermes.ReadCropParamYml"}
+	isParse := func(q Poly) bool {
+		hit := false
+		q.walkAtoms(func(a *Atom) {
+			k := a.Key
+			if strings.Contains(k, "ValAsFloat") || strings.Contains(k, "ValAsInt") || strings.Contains(k, "TryValAsFloat") || strings.Contains(k, "ParseFloat") || strings.HasPrefix(k, "‹") || strings.HasPrefix(k, "tokens[") {
+				hit = true
+			}
+		})
+		return hit
+	}
+	for _, key := range readers {
+		x := walked(p, key)
+		if x == nil {
+			r.Ob(short(key), "-", false, "reader not found")
+			continue
+		}
+		bad := 0
+		for _, L := range loopsOf(x) {
+			type info struct {
+				nested        bool
+				parse, uncond bool
+				first         *Event
+			}
+			vars := map[types.Object]*info{}
+			for _, e := range x.Events {
+				if e.Kind != "assign" || e.Local == nil || !e.InLoop(L) || len(e.Idx) > 0 {
+					continue
+				}
+				if L.VarObj == e.Local {
+					continue
+				}
+				in := vars[e.Local]
+				if in == nil {
+					in = &info{first: e}
+					vars[e.Local] = in
+				}
+				if isParse(e.Val) {
+					in.parse = true
+				}
+				if innermost(e, L) && len(inLoopGuards(e, L)) == 0 {
+					in.uncond = true
+				}
+				if !innermost(e, L) {
+					in.nested = true
+				}
+			}
+			for obj, in := range vars {
+				if !in.parse || in.uncond || in.nested {
+					continue // (assignments in a nested loop are judged with that loop)
+				}
+				// declared outside the loop?
+				if obj.Pos() >= L.Stmt.Pos() && obj.Pos() <= L.Stmt.End() {
+					continue
+				}
+				// loop-entry value read inside the loop
+				entryKey := fmt.Sprintf("%s@L%d", obj.Name(), L.ID)
+				read := false
+				for _, e := range x.Events {
+					if !e.InLoop(L) {
+						continue
+					}
+					chk := func(q Poly) {
+						q.walkAtoms(func(a *Atom) {
+							if a.Kind == "loop" && a.Key == entryKey {
+								read = true
+							}
+						})
+					}
+					if e.Local != obj || e.Kind != "assign" {
+						chk(e.Val)
+					}
+					for _, a := range e.Args {
+						chk(a)
+					}
+					for _, g := range flattenGuards(e.Guards) {
+						if g.Kind == "cmp" {
+							chk(g.P)
+						}
+						if g.Kind == "opq" && strings.HasPrefix(g.Text, entryKey) {
+							read = true
+						}
+					}
+				}
+				if read {
+					bad++
+					r.Ob(short(key)+":"+obj.Name(), p.Pos(in.first.Pos), false, fmt.Sprintf("%s is assigned from the current record only under a condition, is not reset per record, and its value from the previous record is read in the loop at %s", obj.Name(), p.Pos(L.Stmt.Pos())))
+				}
+			}
+		}
+		if bad == 0 {
+			r.Ob(short(key), "-", true, "no record-derived local survives from one record to the next")
+		}
+	}
 }
